@@ -135,6 +135,11 @@ class PGen:
             lambda: ["ProcessXor", ["bin", "|", E(), 1], B] if False else ["RawCopy", X()], lambda: ["Bitwise", ["BitsInteger", ["bin", "*", ["bin", "+", ["bin", "&", E(), 1], 1], 8], False, r.random() < 0.3]],
             lambda: ["StopIf", ["bin", "==", E(), 99]], lambda: ["Optional", ["Const", tag(b"\xfe"), None]] if False else ["Select", [["Const", tag(b"\xfe"), None], B]],
             lambda: ["RestreamData", tag(b"\x01\x02"), ["name", "Int16ub"]],
+            # positions observed inside length-delimited regions (offsets of the outermost stream at any depth)
+            # (inside a Sequence: the length probes that follow Prefixed / FixedSized members expect byte strings)
+            lambda: ["Sequence", [[None, ["Prefixed", B, ["Struct", [["t", ["name", "Tell"]], ["x", B], ["r", ["RawCopy", B]], ["rest", ["name", "GreedyBytes"]]]], False]]]],
+            lambda: ["Sequence", [[None, ["FixedSized", ["bin", "+", EN(), 3], ["Struct", [["t", ["name", "Tell"]], ["p", ["Pointer", ["this", "t"], B]], ["g", ["name", "GreedyBytes"]]]]]]]],
+            lambda: ["Sequence", [[None, B], [None, ["Prefixed", B, ["FixedSized", 2, ["Struct", [["t", ["name", "Tell"]], ["x", B]]]], True]]]],
             # padding with a pattern other than zero bytes
             lambda: ["Padded", ["bin", "+", E(), 3], X(), tag(b"\xff")], lambda: ["Padding", ["bin", "+", ["bin", "&", E(), 3], 1], tag(b"*")], lambda: ["Padded", 4, B, tag(b"\x01")],
             lambda: ["Aligned", 4, X(), tag(b"\xaa")],
